@@ -140,3 +140,21 @@ Print Assumptions bark_s2h_onto.
 Theorem bark_h2s_injective : forall a b, -1960 < a -> -1960 < b -> bark_h2s a = bark_h2s b -> a = b.
 Proof. exact bark_h2s_injective_l. Qed.
 Print Assumptions bark_h2s_injective.
+Theorem octave_s2h_onto : forall l f, 0 < f -> exists s, octave_s2h l s = f.
+Proof. exact octave_s2h_onto_l. Qed.
+Print Assumptions octave_s2h_onto.
+Theorem octave_s2h_injective : forall l a b, octave_s2h l a = octave_s2h l b -> a = b.
+Proof. exact octave_s2h_injective_l. Qed.
+Print Assumptions octave_s2h_injective.
+Theorem mel_s2h_injective : forall a b, mel_s2h a = mel_s2h b -> a = b.
+Proof. exact mel_s2h_injective_l. Qed.
+Print Assumptions mel_s2h_injective.
+Theorem bark_s2h_injective : forall a b, a < 69099 / 2500 -> b < 69099 / 2500 -> bark_s2h a = bark_s2h b -> a = b.
+Proof. exact bark_s2h_injective_l. Qed.
+Print Assumptions bark_s2h_injective.
+Theorem linear_h2s_onto : forall l m s, m <> 0 -> exists f, linear_h2s l m f = s.
+Proof. exact linear_h2s_onto_l. Qed.
+Print Assumptions linear_h2s_onto.
+Theorem linear_h2s_injective : forall l m a b, m <> 0 -> linear_h2s l m a = linear_h2s l m b -> a = b.
+Proof. exact linear_h2s_injective_l. Qed.
+Print Assumptions linear_h2s_injective.
